@@ -40,6 +40,57 @@ def run_translator(job: dict, scratch: str, tag: str) -> dict:
 
 
 # ------------------------------------------------------------------------------------------------
+# macro expansion of example contracts by rustc itself (DESIGN.md §2.1)
+
+EXPAND_TARGET = os.environ.get("VERIF_EXPAND_TARGET", "/var/tmp/verif-expand-target")
+EXPAND_CACHE = os.environ.get("VERIF_EXPAND_CACHE", "/var/tmp/verif-expand-cache")
+
+
+def repo_source_hash() -> str:
+    h = hashlib.sha256()
+    for top in ("packages", "examples"):
+        for root, dirs, files in os.walk(os.path.join(REPO, top)):
+            dirs[:] = sorted(d for d in dirs if d not in ("target", "test_snapshots", ".git"))
+            for fn in sorted(files):
+                if fn.endswith((".rs", ".toml")):
+                    p = os.path.join(root, fn)
+                    h.update(os.path.relpath(p, REPO).encode())
+                    h.update(open(p, "rb").read())
+    for fn in ("Cargo.toml", "Cargo.lock"):
+        p = os.path.join(REPO, fn)
+        if os.path.exists(p):
+            h.update(open(p, "rb").read())
+    return h.hexdigest()[:20]
+
+
+def expand_example(pkg: str) -> str:
+    """path of rustc's own macro expansion of example crate `pkg`, built from REPO's current working tree"""
+    os.makedirs(EXPAND_CACHE, exist_ok=True)
+    out = os.path.join(EXPAND_CACHE, f"{pkg}-{repo_source_hash()}.rs")
+    if os.path.exists(out) and os.path.getsize(out) > 0:
+        return out
+    env = dict(os.environ)
+    env.update({"RUSTUP_TOOLCHAIN": "stable-x86_64-unknown-linux-gnu", "RUSTC_BOOTSTRAP": "1", "CARGO_NET_OFFLINE": "true",
+                "CARGO_TARGET_DIR": EXPAND_TARGET})
+    p = subprocess.run(["cargo", "rustc", "--offline", "-p", pkg, "--lib", "--profile", "check", "--", "-Zunpretty=expanded"],
+                       cwd=REPO, env=env, capture_output=True, text=True)
+    if p.returncode != 0 or "fn " not in p.stdout:
+        raise Undecided(f"macro expansion of {pkg} failed (the modified sources do not compile?): {p.stderr[-1500:]}")
+    tmp = out + f".{os.getpid()}.tmp"
+    with open(tmp, "w") as f:
+        f.write(p.stdout)
+    os.replace(tmp, out)
+    # keep the cache small
+    olds = sorted((os.path.getmtime(os.path.join(EXPAND_CACHE, x)), x) for x in os.listdir(EXPAND_CACHE) if x.endswith(".rs"))
+    for _, x in olds[:-40]:
+        try:
+            os.remove(os.path.join(EXPAND_CACHE, x))
+        except OSError:
+            pass
+    return out
+
+
+# ------------------------------------------------------------------------------------------------
 # type generation (T7)
 
 PRIM = {"u32", "i32", "u64", "i64", "u128", "i128", "bool", "()"}
@@ -437,6 +488,17 @@ def assemble(unit: dict, scratch: str, passname="A") -> Assembled:
                                 "force_effectful", "native_arith") if k in unit}
     job["root"] = REPO
     job["checked_arith"] = passname == "A"
+    if unit.get("expand"):
+        files = []
+        for f in job["files"]:
+            if f in unit["expand"]:
+                files.append(expand_example(unit["expand"][f]))
+            else:
+                files.append(f)
+        job["files"] = files
+    for k in ("resolve_trait_defaults",):
+        if k in unit:
+            job[k] = unit[k]
     tr = run_translator(job, scratch, unit["name"])
     specs = {}
     for sf in unit.get("contracts", []):
